@@ -33,7 +33,13 @@ def strat_1d(draw, tier):
     # truncated copy of the model: what an earlier chain did to it must not show in a later one)
     earlier = draw(st.lists(st.tuples(st.integers(4, 10), _f(0.1, 0.6)), min_size=0, max_size=2)) \
         if draw(st.booleans()) else []
-    return {"model": spec, "grid": g, "method": draw(st.sampled_from(METHODS_1D)), "earlier": [list(e) for e in earlier]}
+    # "pretrunc": the caller's model is already restricted to an interval (public truncate_levy_measure) before the
+    # chain is built on a grid constructed independently of the model: the two restrictions must intersect
+    pretrunc = None
+    if g["type"] in ("uniform-fixed", "geometric-bounds") and draw(st.integers(0, 2)) == 0:
+        pretrunc = [draw(_f(0.6, 8.0)), draw(_f(0.6, 8.0))]
+    return {"model": spec, "grid": g, "method": draw(st.sampled_from(METHODS_1D)), "earlier": [list(e) for e in earlier],
+            "pretrunc": pretrunc}
 
 
 def _method(name):
@@ -49,6 +55,10 @@ def body_1d(case):
     out = []
     spec, gspec = case["model"], case["grid"]
     model = build_model(spec)
+    pl, pr = -INF, INF
+    if case.get("pretrunc"):
+        pl, pr = -case["pretrunc"][0] * model_scale(spec), case["pretrunc"][1] * model_scale(spec)
+        model.truncate_levy_measure((pl, pr))
     try:
         grid = build_grid(gspec, model, spec)
     except GridRejected as e:
@@ -116,7 +126,8 @@ def body_1d(case):
     total_ref = 0.0
     for k in idx:
         a, b = ref_cells[k]
-        ref, _, _ = nu_integral(base_nu, a, b, 0, hints)
+        aa, bb = max(a, pl), min(b, pr)  # (the part of the cell inside the caller's own restriction)
+        ref = nu_integral(base_nu, aa, bb, 0, hints)[0] if aa < bb else 0.0
         total_ref += ref
         tol = 1e-7 * ref + 1e-10 * (tail_l if b <= 0 else tail_r) + 1e-11
         if not np.isfinite(q[k]) or abs(q[k] - ref) > tol:
@@ -150,6 +161,8 @@ def body_1d(case):
             break
     # the caller's model object is left as it was (the chain truncates and re-represents a copy)
     fresh = build_model(spec)
+    if case.get("pretrunc"):
+        fresh.truncate_levy_measure((pl, pr))
     t0, t1 = model.levy_triplet, fresh.levy_triplet
     h2 = grid.h / 2
     same = t0.representation == t1.representation and float(t0.a) == float(t1.a) and \
@@ -168,6 +181,8 @@ def classify_1d(case):
     labels = [br, g["type"], f"refine={g['refine']}", case["method"]]
     if case.get("earlier"):
         labels.append("model-object-used-by-earlier-chains")
+    if case.get("pretrunc"):
+        labels.append("model-already-truncated")
     nt = g["refine"] >= 1 or g["type"] != "uniform" or br in ("cgmy/y<0", "cgmy/y=0", "cgmy/y=1")
     return labels, nt
 
